@@ -211,3 +211,44 @@ pub(crate) fn search<M: Model>(
     }
     stats
 }
+
+/// `Name(1, -2)` -> ("Name", [1, -2])
+pub(crate) fn parse_call(s: &str) -> (String, Vec<i64>) {
+    let s = s.trim();
+    let name = s.split('(').next().unwrap_or("").trim().to_owned();
+    let args = s
+        .split_once('(')
+        .map(|(_, rest)| rest.trim_end_matches(')').split(',').filter_map(|a| a.trim().parse::<i64>().ok()).collect())
+        .unwrap_or_default();
+    (name, args)
+}
+
+/// (config, events) of a replay file written by a BFS check.
+pub(crate) fn read_replay(file: &str) -> Option<(String, Vec<String>)> {
+    let v: serde_json::Value = serde_json::from_str(&std::fs::read_to_string(file).ok()?).ok()?;
+    let r = &v["replay"];
+    let events: Vec<String> = r["events"].as_array()?.iter().filter_map(|e| e.as_str().map(|s| s.to_owned())).collect();
+    Some((r["config"].as_str().unwrap_or("").to_owned(), events))
+}
+
+/// Replays one recorded event list: the invariants of the state it reaches and the continuation.
+pub(crate) fn replay_one<M: Model>(m: &M, evs: &[M::Ev], report: &mut dyn FnMut(&[M::Ev], String, String)) {
+    let mut stats = Stats::default();
+    match replay(m, None, evs, &mut stats) {
+        Reached::Ok(mut sim, bad) => {
+            for (k, d) in bad {
+                report(evs, k, d);
+            }
+            match panics::catch(|| m.on_new_state(&mut sim, evs)) {
+                Ok(bad) => {
+                    for (k, d) in bad {
+                        report(evs, k, d);
+                    }
+                }
+                Err(p) => report(evs, format!("abort-in-continuation/{}", p.site()), p.describe()),
+            }
+        }
+        Reached::Panicked(p, _) => report(evs, format!("abort/{}", p.site()), p.describe()),
+        Reached::Terminal(_) => {}
+    }
+}
